@@ -42,6 +42,10 @@ CRLS = [None, "http://crl.example.com/a/b.crl?x=1", "ldap://[::1/cn=x", "http://
 TZ_NAMES = {0: "UTC", 14: "Etc/GMT-14", -11: "Etc/GMT+11", 5: "Etc/GMT-5"}
 
 
+# an IP literal written as a dNSName SAN (appliances do that): same TEXT as the mirrored token, another identity type
+DNS_IP = {"dip4": "ip4", "dip6": "ip6", "dloc4": "loc4", "dloc6": "loc6"}
+
+
 def kind(tok: str) -> str:
     return tok.split(":")[0]
 
@@ -83,6 +87,14 @@ def conns_for(tier):
                         out.append(conn(sni, loc, a, upcn, upsans, upopt))
                         if (upcn, upsans) in orgs and (tier != "quick" or upopt):
                             out.append(conn(sni, loc, a, upcn, upsans, upopt, uporg=True))
+    # the upstream certificate lists the client's IP identity as a dNSName SAN (CN is not that IP)
+    for sni, loc, d in (("ip4:1", "loc4:1", "dip4:1"), ("ip6:1", "loc4:1", "dip6:1"),
+                        ("none", "loc4:1", "dloc4:1"), ("none", "loc6:1", "dloc6:1")):
+        for a in ("none", "ip4:2") + ((sni,) if sni != "none" else ()):
+            for upcn, upsans in (("none", (d,)), ("dns:3", (d, "dns:3")), ("cnstr:1", ("dns:1", d))):
+                out.append(conn(sni, loc, a, upcn, upsans, True))
+            if tier != "quick":
+                out.append(conn(sni, loc, a, "none", (d,), False))
     return out
 
 
@@ -114,7 +126,9 @@ def token_table(tokens, salt):
     out = {}
     for t in sorted(tokens):
         k, n = t.split(":")
-        out[t] = perm[k][(int(n) - 1) % len(perm[k])]
+        pool = perm[DNS_IP.get(k, k)]
+        text = pool[(int(n) - 1) % len(pool)]
+        out[t] = text.split("%")[0] if k in DNS_IP else text  # a dNSName cannot carry a zone id
     return out
 
 
@@ -126,10 +140,11 @@ def tokens_of(c):
 # projection helpers (cryptography only)
 
 
-def bare(text: str) -> str:
-    """Canonical comparison form of an identity: IP addresses by value, everything else lower-cased."""
+def bare(text: str, as_dns: bool = False) -> str:
+    """Canonical comparison form of an identity: IP addresses by value, everything else lower-cased.  A dNSName whose
+    text is an IP literal is a different identity than the iPAddress of that value (as_dns)."""
     try:
-        return "ip=" + ipaddress.ip_address(text.split("%")[0]).exploded
+        return ("dnsip=" if as_dns else "ip=") + ipaddress.ip_address(text.split("%")[0]).exploded
     except ValueError:
         return text.lower()
 
@@ -271,26 +286,26 @@ class Run:
             return {"k": "no_cert", "src": src, "why": str(peer.error or fs.crashed)[:120]}
         leaf = chain[0]
         ident = sni if sni is not None else c["local"]
-        allowed_texts = [ident] + ([addr] if addr else [])
+        allowed_texts = [(ident, False)] + ([(addr, False)] if addr else [])
         if c["upcn"] is not None:
-            allowed_texts.append(c["upcn"])
-        allowed_texts += [t for _k, t in c["upsans"]]
+            allowed_texts.append((c["upcn"], False))
+        allowed_texts += [(t, k in DNS_IP) for k, t in c["upsans"]]
         foreign: dict[str, str] = {}
 
-        def tok(text):
-            b = bare(text)
+        def tok(text, as_dns=False):
+            b = bare(text, as_dns)
             if b in table:
                 return table[b]
             return foreign.setdefault(b, f"f{len(foreign) + 1}")
 
-        allowed = list(dict.fromkeys(tok(t) for t in allowed_texts))
+        allowed = list(dict.fromkeys(tok(t, d) for t, d in allowed_texts))
         names = []
         cn = leaf.subject.get_attributes_for_oid(x509.NameOID.COMMON_NAME)
         if cn:
             names.append(tok(str(cn[0].value)))
         try:
             san = leaf.extensions.get_extension_for_class(x509.SubjectAlternativeName).value
-            names += [tok(gn_text(g)) for g in san]
+            names += [tok(gn_text(g), isinstance(g, x509.DNSName)) for g in san]
         except x509.ExtensionNotFound:
             pass
         try:
@@ -360,6 +375,7 @@ class Check(core.PropertyCheck):
                 "ConnsAlt": frozenset(core.tlaval.FrozenDict(c) for c in alt),
                 "Conns2": frozenset(core.tlaval.FrozenDict(c) for c in conns2_for(tier)),
                 "MaxConns": 2, "Long": frozenset({"long:1", "long:2"}), "BadIdna": frozenset({"badcn:1"}),
+                "DnsIp": frozenset((f"{d}:{n}", f"{i}:{n}") for d, i in DNS_IP.items() for n in (1, 2, 3)),
                 "LegacyCnRaises": False, "LegacyCritSan": False}
 
     def model_runs(self, ctx):
@@ -421,6 +437,7 @@ class Check(core.PropertyCheck):
         conns = []
         for _ in range(rng.randint(1, 5)):
             sni = rng.choice(["none", pick(["dns", "dns", "long", "idn", "ip4", "ip6"])])
+            loc = pick(["loc4", "loc6"])
             addr = rng.choice(["none", sni if sni != "none" else "none", pick(["dns", "ip4", "ip6", "idn"])])
             if rng.random() < 0.6:
                 upcn = rng.choice(["none", pick(["dns", "cnstr", "ip4", "long", "idn"]), sni if sni != "none" else "none"])
@@ -430,9 +447,13 @@ class Check(core.PropertyCheck):
                     upsans.insert(rng.randint(0, len(upsans)), upcn)
                 if sni != "none" and rng.random() < 0.5:
                     upsans.append(sni)
+                if rng.random() < 0.25:  # the client's IP identity as a dNSName SAN of the upstream certificate
+                    if sni != "none" and kind(sni) in ("ip4", "ip6"):
+                        upsans.insert(0, "d" + sni)
+                    elif sni == "none":
+                        upsans.insert(0, "d" + loc)
             else:
                 upcn, upsans = "none", []
-            loc = pick(["loc4", "loc6"])
             conns.append(conn(sni, loc, addr, upcn, tuple(dict.fromkeys(upsans)), rng.random() < 0.8,
                               uporg=(upcn != "none" or bool(upsans)) and rng.random() < 0.4))
             if sni != "none" and kind(sni) == "idn" and rng.random() < 0.6:
@@ -452,7 +473,7 @@ class Check(core.PropertyCheck):
         tt = token_table(toks, sc["salt"])
         table = {}
         for t in sorted(toks):
-            table.setdefault(bare(tt[t]), t)
+            table.setdefault(bare(tt[t], kind(t) in DNS_IP), t)
         run = Run(getattr(self, "scratch", "/verif/.scratch/C16-replay"), sc["ca"], sc["tz"])
         trace = []
         rng = random.Random(sc["salt"] + 1)
